@@ -345,7 +345,7 @@ func TestC10Pools(t *testing.T) {
 		}
 	}
 	// text lists whose FIRST element reads as a number: still text lists
-	for _, l := range [][]string{{"a"}, {"a", "b"}, {"x", "yz", ""}, {"1", "b"}, {"1.5", "b", "c"}, {"a", "1"}, {"007", "x"}} {
+	for _, l := range [][]string{{"a"}, {"a", "b"}, {"x", "yz", ""}, {"1", "b"}, {"1.5", "b", "c"}, {"a", "1"}, {"007", "x"}, {"007", "1"}, {"1", "2"}, {"12", "1.5"}} {
 		var cargs []*lib.Node
 		for _, x := range l {
 			cargs = append(cargs, lib.Str(x))
